@@ -13,3 +13,5 @@ pub mod sinks;
 mod c02_utf8;
 #[cfg(kani)]
 mod c04_decoder;
+#[cfg(kani)]
+mod c17_scalars;
